@@ -230,6 +230,9 @@ def _unique_name(params: Any) -> str:
         # different parameter-values produce the same name. Use the hashing method below for those.
         strs = [v for v in (getattr(params, k) for k in keys) if isinstance(v, str)]
         ambiguous = any(" " in v or "=" in v or v == "None" for v in strs)
+        # A "." - of a float, or in a string - would end up inside the module's name,
+        # where exported (qualified) names and everything that reads them use it as the path separator.
+        ambiguous = ambiguous or "." in name
 
         # These names must also be limited in length, for sake of our favorite output formats.
         # If the generated name is too long, use the hashing method below instead
